@@ -55,3 +55,8 @@ Definition api_mpz_abs : api := fun a => out_mpz (mpz_abs (argmpz a 0)).
 Definition api_mpz_set : api := fun a => out_mpz (mpz_set (argmpz a 0)).
 Definition api_mpz_swap : api := fun a =>
   let p := mpz_swap (argmpz a 0) (argmpz a 1) in out_mpz (fst p) ++ out_mpz (snd p).
+
+(* C05 alias harness: the specification of "aliased call = distinct call, inputs unchanged"
+   is the constant verdict 0 (see Properties_C05.v); the implementation driver prints 0 when the
+   two runs agree on every argument *)
+Definition api_alias : api := fun _ => [TZ 0].
